@@ -194,16 +194,27 @@ def flat(dev):
 
 
 def poke(arm, addr, data):
-    """write bytes at a physical address straight into the backing device (no MPU, no log)"""
-    for mc in arm.mem.memories:
-        if mc.beginning <= addr < mc.end and hasattr(mc.mem, 'memory_array'):
-            off = addr - mc.beginning
-            if flat(mc.mem) is None:
-                mc.mem.write(off, len(data), bytes(data))
-            else:
-                mc.mem.memory_array[off:off + len(data)] = data
-            return True
-    return False
+    """write bytes at a physical address straight into the backing device(s) (no MPU, no log).  Each byte goes to the first controller whose window
+    holds its address - a word placed across the end of a small window continues in whatever is mapped behind it - and never past a device's end"""
+    done = False
+    while data:
+        for mc in arm.mem.memories:
+            if mc.beginning <= addr < mc.end and hasattr(mc.mem, 'memory_array'):
+                off = addr - mc.beginning
+                n = max(0, min(len(data), mc.end - addr, mc.mem.size - off))
+                if n == 0:
+                    n = min(len(data), mc.end - addr)        # (window larger than its device: nothing to write there)
+                elif flat(mc.mem) is None:
+                    mc.mem.write(off, n, bytes(data[:n]))
+                else:
+                    mc.mem.memory_array[off:off + n] = data[:n]
+                done = True
+                break
+        else:
+            n = 1                                            # unmapped byte
+        addr += n
+        data = data[n:]
+    return done
 
 
 def peek(arm, addr, n):
